@@ -143,9 +143,10 @@ impl Prop {
     /// runs per tier
     pub fn budget(self, tier: Tier) -> u64 {
         let quick = match self {
-            Prop::C13 => 6_000,
-            Prop::C15 => 40_000,
-            _ => 120_000,
+            Prop::C13 => 12_000,
+            Prop::C15 => 120_000,
+            Prop::C17 => 200_000,
+            _ => 400_000,
         };
         match tier {
             Tier::Quick => quick,
@@ -1478,7 +1479,9 @@ fn eval_c15(case: &Case) -> Eval {
         // an interleaved iterator may have been stepped fewer times: compare the prefix;
         // extra next() after None only add None items
         let n = view.len().min(solo_view.len());
-        let extra_ok = view[n..].iter().all(|x| x.starts_with("End"));
+        // (if the solo run was stopped by the step cap, it simply knows no more)
+        let extra_ok =
+            solo_out.iters[0].capped || view[n..].iter().all(|x| x.starts_with("End"));
         if view[..n] != solo_view[..n] || !extra_ok {
             let at = (0..n).find(|j| view[*j] != solo_view[*j]).unwrap_or(n);
             ev.violation = Some(Violation {
